@@ -50,3 +50,75 @@ def run(F, R):
         bs = [b for b in F.find(r"async_graphql::context::\{impl#\d+\}::%s$" % name, kind="fn") if "SelectionField" in (b.impl_self or "")]
         ok = bool(bs) and all(b.calls_to(r"context::\{impl#\d+\}::resolve_input_value$") for b in bs)
         R.check(ok, "R22.3", "SelectionField::%s:resolve_input_value" % name, bs[0].where() if bs else "-", "uses resolve_input_value", "arguments are not resolved like the executor does")
+
+    R.rule("R22.4", "no pending selection is dropped by the selection_set() walker: in SelectionFieldsIter::next the current level's iterator is overwritten "
+                    "only where its remaining length is proven 0, and the stack is popped only on the arm where the current iterator returned None")
+    from common import guard_value_set
+    for b in nx:
+        lm = [c for c in b.calls_to(r"slice::\{impl#\d+\}::last_mut$")]
+        R.floor("R22.4", "stack top accesses (last_mut) in SelectionFieldsIter::next", len(lm), 1)
+
+        def from_top(local):
+            o, passed = trace(b, local)
+            return any(c in lm for c in passed)
+
+        stores = [(bb, s) for bb, s in b.all_stmts() if len(s[0]) >= 2 and s[0][1] == "*" and len(s[0]) == 2 and from_top(s[0][0])]
+        swaps = [c for c in b.calls() if c.callee and re.search(r"mem::(replace|swap|take)$", c.callee) and any(a[0] in ("c", "m") and from_top(a[1][0]) for a in c.args)]
+
+        def is_len(op):
+            if op[0] not in ("c", "m"):
+                return False
+            o, passed = trace(b, op, through_calls=False)
+            return any(k == "call" and c.callee and re.search(r"::len$", c.callee) and c.args and c.args[0][0] in ("c", "m") and from_top(c.args[0][1][0]) for k, c in o)
+
+        bad = []
+        for bb, s in stores:
+            vals = guard_value_set(b, bb, is_len)
+            if vals - {0}:
+                bad.append("%s:%s (remaining length may be %s)" % (b.file, s[2], sorted(vals - {0})[:3]))
+        for c in swaps:
+            vals = guard_value_set(b, c.bb, is_len)
+            if vals - {0}:
+                bad.append(c.where())
+        R.check(not bad, "R22.4", "SelectionFieldsIter::next:level-iterator-overwritten", b.where(), "%d stores to the current level, all with remaining length 0" % (len(stores) + len(swaps)),
+                "the iterator of the current selection level is replaced while it may still hold selections (%s): the selections that follow a fragment are dropped from "
+                "selection_set() although they are resolved" % "; ".join(bad))
+        pops = b.calls_to(r"vec::\{impl#\d+\}::pop$")
+        nxt = [c for c in b.calls() if c.callee and re.search(r"slice::iter::\{impl#\d+\}::next$", c.callee)]
+        ok = bool(nxt)
+        for p in pops:
+            ok2 = False
+            for (sbb, place, adt, arms, other, vmap) in b.enum_switches(r"core::option::Option$"):
+                o, passed = trace(b, b.term(sbb)[1])
+                if any(c in nxt for c in passed) and arms.get("None") is not None:
+                    if p.bb not in b.reachable(0, avoid=[arms["None"]]):
+                        ok2 = True
+            ok = ok and ok2
+        R.check(ok and bool(pops), "R22.4", "SelectionFieldsIter::next:pop-only-when-exhausted", b.where(), "%d pops, each behind the None arm of the level iterator" % len(pops),
+                "a stack level is popped on a path where its iterator was not exhausted")
+
+    R.rule("R22.5", "collecting loops run to exhaustion: the loops of Lookahead::field / selection_fields / From<SelectionField> and look_ahead::filter over the covered "
+                    "fields and over a selection set's items are left only through the iterator's None arm (no break / early return drops later occurrences of a merged field)")
+    from common import sccs, loop_exit_edges
+    n5 = 0
+    la_bodies = [x for x in F.bodies.values() if x.defp.startswith("async_graphql::look_ahead::") and x.kind == "fn" and "::tests::" not in x.defp]
+    for x in la_bodies:
+        for comp in sccs(x):
+            nexts = [c for c in x.calls() if c.bb in comp and c.callee and re.search(r"iter::\{impl#\d+\}::next$|Iterator::next$", c.declared or c.callee)]
+            if not nexts:
+                continue
+            n5 += 1
+            none_srcs = set()
+            for (sbb, place, adt, arms, other, vmap) in x.enum_switches(r"core::option::Option$"):
+                if sbb in comp:
+                    o, passed = trace(x, x.term(sbb)[1])
+                    if any(c in nexts for c in passed):
+                        none_srcs.add(sbb)
+            exits = loop_exit_edges(x, comp)
+            extra = [(s, d) for s, d in exits if s not in none_srcs]
+            # the None arm itself may sit in a forwarding block outside the component: accept exits whose source is the switch
+            fn = re.sub(r"\{impl#\d+\}", "{impl}", x.defp.replace("async_graphql::look_ahead::", ""))
+            R.check(not extra, "R22.5", "loop-runs-to-exhaustion:%s" % fn, x.where(), "only exit is iterator exhaustion",
+                    "the loop is also left through bb%s: occurrences after the first match are not visited, so sub-fields selected under a later occurrence of a "
+                    "merged field are missing from the look-ahead" % sorted({s for s, _ in extra}))
+    R.floor("R22.5", "iterator loops in look_ahead.rs", n5, 2)
